@@ -8,6 +8,7 @@ use std::sync::Mutex;
 use rayon::prelude::*;
 use serde_json::{json, Value};
 
+mod corecmd;
 mod lexcmd;
 mod util;
 
@@ -82,6 +83,7 @@ fn main() {
         .unwrap();
     match cmd {
         "lex" => write_records(&par_map(read_records(), lexcmd::lex_record)),
+        "core-print" => write_records(&par_map(read_records(), corecmd::print_record)),
         "version" => println!("{}", json!({"harness": 1})),
         _ => {
             eprintln!("usage: vh <lex|...>  (ndjson on stdin)");
